@@ -65,6 +65,9 @@ type Finding struct {
 	Harness  string            `json:"harness"`
 	Bounds   map[string]int64  `json:"bounds"`
 	Extra    map[string]string `json:"extra,omitempty"`
+	// further counterexamples of the same kind/label/class (tried natively when the first one
+	// cannot be replayed, e.g. a crash point the native file system cannot be stopped at)
+	Alternates []*ReplayVector `json:"alternates,omitempty"`
 }
 
 type ReplayVector struct {
@@ -962,6 +965,7 @@ func explore(eng *Engine, cfg *Config) *Summary {
 	stop := false
 	incSeen := map[string]bool{}
 	findSeen := map[string]bool{}
+	findIdx := map[string]int{}
 	var wg sync.WaitGroup
 	for i := 0; i < cfg.Workers; i++ {
 		wg.Add(1)
@@ -1007,11 +1011,12 @@ func explore(eng *Engine, cfg *Config) *Summary {
 				}
 				for _, f := range res.Findings {
 					k := f.Kind + "|" + f.Label + "|" + f.Class + "|" + f.Msg
-					if !findSeen[k] || len(sum.Findings) < 40 {
-						if !findSeen[k] {
-							findSeen[k] = true
-							sum.Findings = append(sum.Findings, f)
-						}
+					if !findSeen[k] {
+						findSeen[k] = true
+						findIdx[k] = len(sum.Findings)
+						sum.Findings = append(sum.Findings, f)
+					} else if i := findIdx[k]; f.Vector != nil && len(sum.Findings[i].Alternates) < 8 {
+						sum.Findings[i].Alternates = append(sum.Findings[i].Alternates, f.Vector)
 					}
 				}
 				for _, s := range res.Incomplete {
